@@ -299,3 +299,149 @@ func sameValue(a, b ssa.Value) bool {
 	}
 	return false
 }
+
+// ---- information-flow ("depends") obligations, also discharged on the SSA ----
+//
+//   depends-only P : f, g     parameter P may only be passed on as an argument to f or g (never branched on,
+//                             computed with, or stored)  — e.g. the cast flag of the decoders
+//   opaque-result f           results of calls to f may only be stored as map values (MapUpdate value operand)
+//                             — so the shape and keys of the Map being built cannot depend on them
+
+func (e *Engine) dependsObligations(fn *ssa.Function, fc *FuncContract, ctx *FnCtx) []*Obligation {
+	if fn.Blocks == nil || fc == nil {
+		return nil
+	}
+	fname := fn.RelString(fn.Pkg.Pkg)
+	var out []*Obligation
+	mk := func(name, src string, bad []string) {
+		o := &Obligation{Name: fname + ":depends:" + name, Kind: "depends", Func: fname, Ctx: ctx, Solver: "ssa-dataflow", Src: src, Props: fc.Props, Status: "unsat"}
+		if len(bad) > 0 {
+			o.Status = "failed"
+			o.Output = strings.Join(bad, "\n")
+		}
+		out = append(out, o)
+	}
+	calleeName := func(c *ssa.CallCommon) string {
+		if f := c.StaticCallee(); f != nil {
+			return f.Name()
+		}
+		return ""
+	}
+	for _, d := range fc.DependsOnly {
+		var param *ssa.Parameter
+		for _, p := range fn.Params {
+			if p.Name() == d.Param {
+				param = p
+			}
+		}
+		if param == nil {
+			mk(d.Param, "depends-only "+d.Param, []string{"no such parameter"})
+			continue
+		}
+		allowed := map[string]bool{}
+		for _, f := range d.Funcs {
+			allowed[f] = true
+		}
+		var bad []string
+		seen := map[ssa.Value]bool{}
+		var follow func(v ssa.Value)
+		follow = func(v ssa.Value) {
+			if seen[v] {
+				return
+			}
+			seen[v] = true
+			refs := v.Referrers()
+			if refs == nil {
+				return
+			}
+			for _, r := range *refs {
+				switch x := r.(type) {
+				case *ssa.Store:
+					if x.Val == v {
+						if a, ok := x.Addr.(*ssa.Alloc); ok {
+							follow(a) // the local copy of the parameter
+							continue
+						}
+						bad = append(bad, fmt.Sprintf("%s is stored to memory at %s", d.Param, e.ld.Fset.Position(x.Pos())))
+					}
+				case *ssa.UnOp:
+					if x.Op == token.MUL {
+						follow(x)
+						continue
+					}
+					bad = append(bad, fmt.Sprintf("%s is computed with at %s", d.Param, e.ld.Fset.Position(x.Pos())))
+				case *ssa.Call:
+					if !allowed[calleeName(&x.Call)] {
+						bad = append(bad, fmt.Sprintf("%s is passed to %s at %s", d.Param, x.Call.Value.Name(), e.ld.Fset.Position(x.Pos())))
+					}
+				case *ssa.DebugRef:
+				default:
+					bad = append(bad, fmt.Sprintf("%s is used by %T at %s", d.Param, r, e.ld.Fset.Position(r.Pos())))
+				}
+			}
+		}
+		follow(param)
+		mk(d.Param, "depends-only "+d.Param+" : "+strings.Join(d.Funcs, ", "), bad)
+	}
+	for _, f := range fc.OpaqueResult {
+		var bad []string
+		n := 0
+		for _, b := range fn.Blocks {
+			for _, in := range b.Instrs {
+				c, ok := in.(*ssa.Call)
+				if !ok || calleeName(&c.Call) != f {
+					continue
+				}
+				n++
+				seen := map[ssa.Value]bool{}
+				var follow func(v ssa.Value)
+				follow = func(v ssa.Value) {
+					if seen[v] {
+						return
+					}
+					seen[v] = true
+					refs := v.Referrers()
+					if refs == nil {
+						return
+					}
+					for _, r := range *refs {
+						switch x := r.(type) {
+						case *ssa.MapUpdate:
+							if x.Value != v {
+								bad = append(bad, fmt.Sprintf("result of %s is used as a map or key at %s", f, e.ld.Fset.Position(x.Pos())))
+							}
+						case *ssa.MakeInterface, *ssa.ChangeType, *ssa.ChangeInterface:
+							follow(r.(ssa.Value))
+						case *ssa.Store:
+							// stored into a composite literal / local: follow loads of that location
+							if a, ok := x.Addr.(*ssa.Alloc); ok && x.Val == v {
+								follow(a)
+								continue
+							}
+							if ia, ok := x.Addr.(*ssa.IndexAddr); ok && x.Val == v {
+								follow(ia.X)
+								continue
+							}
+							bad = append(bad, fmt.Sprintf("result of %s is stored at %s", f, e.ld.Fset.Position(x.Pos())))
+						case *ssa.UnOp:
+							if x.Op == token.MUL {
+								follow(x)
+							} else {
+								bad = append(bad, fmt.Sprintf("result of %s is computed with at %s", f, e.ld.Fset.Position(x.Pos())))
+							}
+						case *ssa.DebugRef:
+						default:
+							bad = append(bad, fmt.Sprintf("result of %s is used by %T at %s", f, r, e.ld.Fset.Position(r.Pos())))
+						}
+					}
+				}
+				follow(c)
+			}
+		}
+		if n == 0 {
+			bad = append(bad, "no call of "+f+" found (contract out of date)")
+		}
+		mk("result-of-"+f, "opaque-result "+f, bad)
+	}
+	return out
+}
